@@ -1,0 +1,49 @@
+//go:build verif
+
+package shell
+
+import (
+	"io"
+	"time"
+
+	"github.com/postalsys/muti-metroo/internal/crypto"
+	"github.com/postalsys/muti-metroo/internal/identity"
+)
+
+// VerifAttachPTY registers a shell stream that already has its session key
+// and an interactive session (any PTYSessionInterface) and starts
+// pumpPTYOutput on it, as handleMetadata does after NewPTYSession succeeded.
+// The verification harness passes a fake session producing exact read sizes.
+func (h *Handler) VerifAttachPTY(peerID identity.AgentID, streamID uint64, key *crypto.SessionKey, pty PTYSessionInterface) {
+	ss := &ShellStream{
+		StreamID:      streamID,
+		PeerID:        peerID,
+		IsInteractive: true,
+		MetaReceived:  true,
+		PTYSession:    pty,
+		StartTime:     time.Now(),
+		sessionKey:    key,
+	}
+	h.mu.Lock()
+	h.streams[streamID] = ss
+	h.mu.Unlock()
+	go h.pumpPTYOutput(ss)
+}
+
+// VerifPumpOutput runs pumpOutput (the loop behind pumpStdout/pumpStderr)
+// synchronously over the given reader until it returns an error.
+func (h *Handler) VerifPumpOutput(peerID identity.AgentID, streamID uint64, key *crypto.SessionKey, r io.Reader, stderr bool) {
+	ss := &ShellStream{
+		StreamID:     streamID,
+		PeerID:       peerID,
+		MetaReceived: true,
+		Session:      &Session{},
+		StartTime:    time.Now(),
+		sessionKey:   key,
+	}
+	enc := EncodeStdout
+	if stderr {
+		enc = EncodeStderr
+	}
+	h.pumpOutput(ss, func() io.Reader { return r }, enc)
+}
